@@ -122,17 +122,23 @@ def _jacobian(matrix, symbols):
 
     A filter only evaluates its model at real numbers, but sympy differentiates a
     Symbol without assumptions as a complex variable: d|v|/dv keeps
-    Derivative(re(v), v), which CSE and simplify silently turn into 0.
+    Derivative(re(v), v), which CSE and simplify silently turn into 0. Where
+    sympy's own derivative is not in closed form the model is differentiated
+    again as a real function.
     """
-    real = {
-        s: Dummy(s.name, real=True) for s in matrix.free_symbols if s.is_real is None
-    }
-    undo = {d: s for s, d in real.items()}
-    result = (
-        matrix.xreplace(real)
-        .jacobian([real.get(s, s) for s in symbols])
-        .xreplace(undo)
-    )
+    result = matrix.jacobian(symbols)
+    if result.has(Derivative):
+        real = {
+            s: Dummy(s.name, real=True)
+            for s in matrix.free_symbols
+            if s.is_real is None
+        }
+        undo = {d: s for s, d in real.items()}
+        result = (
+            matrix.xreplace(real)
+            .jacobian([real.get(s, s) for s in symbols])
+            .xreplace(undo)
+        )
     if result.has(Derivative):
         raise ModelConstructionError(
             "A partial derivative of the model has no closed form"
